@@ -309,3 +309,83 @@ Proof.
     + specialize (Hcl c). rewrite Hd in Hcl. cbn in Hcl. exists v. repeat split; auto.
     + specialize (Hcl c). rewrite Hd in Hcl. contradiction.
 Qed.
+
+(* ======================================================================== *)
+(* Private copies.  Origin answers are numbered; the number a client holds as
+   its own copy was allocated by that client's own fetch, is held by nobody
+   else, and is neither a stored version nor the running flight's answer. *)
+
+Definition flight_nr (s : state) : option Z :=
+  match stage_of s with
+  | Some (SWait n _) | Some (SAnswered n _) => Some n
+  | _ => None
+  end.
+
+Definition uniq_inv (s : state) : Prop :=
+  (forall c n, private_nr (ph s c) = Some n ->
+     1 <= n <= origin_count s /\ ~ In n (stored s) /\ flight_nr s <> Some n) /\
+  (forall c1 c2 n, private_nr (ph s c1) = Some n -> private_nr (ph s c2) = Some n -> c1 = c2) /\
+  (forall n, In n (stored s) -> n <= origin_count s) /\
+  (forall n, flight_nr s = Some n -> n <= origin_count s) /\
+  0 <= origin_count s.
+
+Lemma uniq_inv_init ks : uniq_inv (init ks).
+Proof.
+  unfold uniq_inv, flight_nr, stage_of; cbn. repeat split; try discriminate; try lia.
+  intros n H. destruct ks; cbn in H; intuition lia.
+Qed.
+
+Lemma private_nr_after_do p r sh :
+  private_nr (match p with
+              | Idle => Idle | InFlight => after_do r sh | Post p0 => Post p0
+              | Done r0 => Done r0 | Gone => Gone
+              end) = private_nr p.
+Proof. destruct p; cbn; auto. destruct r; reflexivity. Qed.
+
+Ltac uniq_client H :=
+  unfold upd in H;
+  match type of H with
+  | context [?c0 =? ?c] =>
+      let E := fresh "E" in
+      destruct (c0 =? c) eqn:E; [apply Z.eqb_eq in E; subst|apply Z.eqb_neq in E]
+  end;
+  try match type of H with
+  | private_nr (Done ?r) = _ =>
+      match goal with E : ph _ _ = Post (PHave r) |- _ =>
+        change (private_nr (Done r)) with (private_nr (Post (PHave r))) in H; rewrite <- E in H end
+  end;
+  try (cbn in H; discriminate).
+
+Ltac state_cbn :=
+  cbn [ph flight_ cache origin_count cond_count stored faults set_ph set_flight set_stage
+       option_map fl_stage fl_leader fl_shared] in *.
+
+Lemma uniq_inv_step s a s' : uniq_inv s -> lts_step s a = Some s' -> uniq_inv s'.
+Proof.
+  intros (Hp & Hu & Hs & Hf & H0) Hstep.
+  destruct a; step_cases Hstep; unfold uniq_inv, flight_nr, stage_of in *; state_cbn;
+    repeat match goal with E : flight_ _ = _ |- _ => rewrite E in * end; state_cbn;
+    repeat match goal with E : fl_stage _ = _ |- _ => rewrite E in * end; state_cbn.
+  all: repeat split; try assumption; try lia; intros.
+  all: repeat match goal with H : context [private_nr (match ph _ _ with _ => _ end)] |- _ =>
+         rewrite private_nr_after_do in H end.
+  all: repeat match goal with H : private_nr (upd _ _ _ _) = Some _ |- _ => uniq_client H end.
+  all: try solve [eapply Hp; eauto | eapply Hu; eauto | apply Hs; auto | apply Hf; auto | congruence].
+  all: repeat match goal with H : private_nr (ph _ _) = Some _ |- _ =>
+         let X := fresh "X" in pose proof (Hp _ _ H) as X; revert H end; intros.
+  all: repeat match goal with H : private_nr (Post (PHave (RPrivate _ _))) = Some _ |- _ => cbn in H end.
+  all: repeat match goal with H : Some _ = Some _ |- _ => inv H end.
+  all: try match goal with |- Some _ <> Some _ => let Q := fresh "Q" in intros Q; inv Q end.
+  all: try match goal with |- ~ In _ _ => let Q := fresh "Q" in intros Q; try (destruct Q as [Q|Q]; [subst|]) end.
+  all: repeat match goal with H : In _ (stored _) |- _ =>
+         let X := fresh "X" in pose proof (Hs _ H) as X; revert H end; intros.
+  all: try solve [intuition (try lia; try congruence)].
+  all: try match goal with H : _ = Some _ |- _ => apply Hf in H; lia end.
+  all: try (let Q := fresh "Q" in intros Q; apply Hf in Q; lia).
+  destruct H as [<-|H]; [apply Hf; auto|apply Hs; auto].
+Qed.
+
+Lemma uniq_inv_run ks tr s : run (init ks) tr = Some s -> uniq_inv s.
+Proof.
+  intros H. exact (run_invariant_all uniq_inv uniq_inv_step tr (init ks) s (uniq_inv_init ks) H).
+Qed.
